@@ -426,6 +426,11 @@ func CreateDB(dbName string) error {
 }
 
 func (rs *RelationService) CreateTable(r *Relation, tableName string) error {
+	// CREATE TABLE changes catalog pages, the cache and the header counters
+	// and then flushes; the periodic flusher must not run in the middle of it
+	rs.fs.lockExclusive()
+	defer rs.fs.unlockExclusive()
+
 	_, err := rs.getRelationFileOffset(tableName)
 	if err != ErrTableNotExist {
 		return ErrTableAlreadyExist
@@ -442,7 +447,7 @@ func (rs *RelationService) CreateTable(r *Relation, tableName string) error {
 		return err
 	}
 
-	return rs.fs.flushPages()
+	return rs.fs.flushPagesLocked()
 }
 
 func (rs *RelationService) createPage() (*btreeNode, error) {
